@@ -131,6 +131,10 @@ def systematic_resample(log_weights: jnp.ndarray, n_samples: int) -> jnp.ndarray
     u = uniform.sample(0.0, 1.0)
     positions = (jnp.arange(n_samples) + u) / n_samples
     cumsum = jnp.cumsum(weights)
+    # The float32 cumulative sum may end slightly below 1; normalise it so that its
+    # last entry is exactly 1 and no pointer (u close to 1) can run past the last
+    # particle with positive weight.
+    cumsum = cumsum / cumsum[-1]
 
     indices = jnp.searchsorted(cumsum, positions)
     return indices
